@@ -2290,3 +2290,21 @@ V(id='c14-benign-outward-more-allowance', prop='C14', file='mpmath/libmp/libmpi.
   old="        p = from_man_exp((MPZ_ONE<<wp) + (MPZ_ONE<<10), -wp)\n    else:\n        p = from_man_exp((MPZ_ONE<<wp) - (MPZ_ONE<<10), -wp)",
   new="        p = from_man_exp((MPZ_ONE<<wp) + (MPZ_ONE<<12), -wp)\n    else:\n        p = from_man_exp((MPZ_ONE<<wp) - (MPZ_ONE<<12), -wp)",
   expect='silent')
+
+# ---- C24 T-R11 / T-R12 (fixes d99b975, b3294dd) ----
+V(id='c24-sum-accurately-no-cap', prop='C24', file='mpmath/ctx_base.py',
+  old="                if cancellation == ctx.inf and ctx.prec > 100*prec + 1000:\n                    # The sum is still exactly zero at a hundred times the\n                    # precision: take it to be zero instead of raising the\n                    # precision forever\n                    break\n",
+  new="", expect='fire:T-R11:sum_accurately')
+V(id='c24-mul-accurately-cap-on-recomputed-bound', prop='C24', file='mpmath/ctx_base.py',
+  old="                if cancellation == ctx.inf and ctx.prec > 100*prec + 1000:\n                    # The product is still exactly one at a hundred times",
+  new="                if cancellation == ctx.inf and ctx.prec > 100*cancellation:\n                    # The product is still exactly one at a hundred times",
+  expect='fire:T-R11:mul_accurately')
+V(id='c24-sum-accurately-sum-mag-unbound', prop='C24', file='mpmath/ctx_base.py',
+  old="                max_mag = ctx.ninf\n                sum_mag = ctx.ninf\n                s = ctx.zero\n", new="                max_mag = ctx.ninf\n                s = ctx.zero\n",
+  expect='fire:T-R11:sum_accurately')
+V(id='c24-agm-principal-root-only', prop='C24', file='mpmath/libmp/libhyper.py',
+  old="        if mpf_gt(mpc_abs(mpc_sub(a1, b1, 10), 10), mpc_abs(mpc_add(a1, b1, 10), 10)):\n            b1 = mpc_neg(b1)\n        a, b = a1, b1\n        if mpc_zero in (a, b):\n            return fzero, fzero\n",
+  new="        a, b = a1, b1\n", expect='fire:T-R12:mpc_agm')
+V(id='c24-benign-agm-zero-test-only', prop='C24', file='mpmath/libmp/libhyper.py',
+  old="        if mpf_gt(mpc_abs(mpc_sub(a1, b1, 10), 10), mpc_abs(mpc_add(a1, b1, 10), 10)):\n            b1 = mpc_neg(b1)\n        a, b = a1, b1\n",
+  new="        a, b = a1, b1\n", expect='silent')
